@@ -295,7 +295,10 @@ def span_close_bookkeeping(F, R):
     srows = D.Deep(F, cl, max_paths=400).run()
     if not srows:
         raise Unverifiable("span-entry sweep: empty table")
-    touched = lambda p: [e for e in p.effects if (e[0] == "write" and D.mentions(e[1], lambda y: y == V)) or
+    def noop_write(p, e):
+        """storing `None` into an Option the row learned to be `None` already (`callbacks.take()` on an empty entry) changes nothing"""
+        return D.is_variant(e[2], "std::option::Option", "None") and any(a == ("discr", e[1]) and o == "None" for a, o in p.conds)
+    touched = lambda p: [e for e in p.effects if (e[0] == "write" and D.mentions(e[1], lambda y: y == V) and not noop_write(p, e)) or
                          (e[0] == "call" and re.search(r"Sender.*::send$|mem::(take|replace)$|Option::<.*>::take$|Vec::<.*>::(clear|drain|pop)$", e[1]) and D.mentions(e[2], lambda y: y == V))]
     closed = lambda p: any(o is True and a[0] != "discr" and D.mentions(a, lambda y: y == V) and not (isinstance(a, tuple) and a[0] in ("call", "bin")) for a, o in p.conds)
     n_keep = n_rm = 0
